@@ -125,3 +125,65 @@ pub fn finish(o: CheckOutcome) -> i32 {
         0
     }
 }
+
+/// Merges the outcomes of several engines into one check result for a property.
+pub fn merge(property: &str, tier: &str, parts: Vec<(&str, CheckOutcome)>) -> CheckOutcome {
+    let mut states = 0u64;
+    let mut transitions = 0u64;
+    let mut traces = 0u64;
+    let mut samples: Vec<Value> = vec![];
+    let mut exhaustive = true;
+    let mut by_engine = serde_json::Map::new();
+    let mut violations = vec![];
+    let mut assumptions: Vec<String> = vec![];
+    let mut wall = 0.0;
+    let mut mach = None;
+    let mut level = "model_checking";
+    for (name, o) in parts {
+        states += o.coverage["states"].as_u64().unwrap_or(0);
+        transitions += o.coverage["transitions"].as_u64().unwrap_or(0);
+        traces += o.coverage["traces_validated_against_impl"].as_u64().unwrap_or(0);
+        if let Some(a) = o.coverage["samples"].as_array() {
+            samples.extend(a.iter().cloned());
+        }
+        if o.coverage["exhaustive"].as_bool() == Some(false) {
+            exhaustive = false;
+        }
+        by_engine.insert(name.to_string(), o.coverage);
+        for v in o.violations {
+            if !violations.iter().any(|x: &Violation| x.signature == v.signature) {
+                violations.push(v);
+            }
+        }
+        for a in o.assumptions {
+            if !assumptions.contains(&a) {
+                assumptions.push(a);
+            }
+        }
+        wall += o.wall_s;
+        if o.machinery_error.is_some() {
+            mach = o.machinery_error;
+        }
+        if o.level != "model_checking" {
+            level = o.level;
+        }
+    }
+    CheckOutcome {
+        property: property.to_string(),
+        tier: tier.to_string(),
+        level,
+        coverage: json!({
+            "states": states,
+            "transitions": transitions,
+            "traces_validated_against_impl": traces,
+            "evaluations": traces,
+            "samples": samples,
+            "exhaustive": exhaustive,
+            "parts": Value::Object(by_engine),
+        }),
+        assumptions,
+        violations,
+        wall_s: wall,
+        machinery_error: mach,
+    }
+}
